@@ -127,12 +127,21 @@ def sess_c08(lits, expect):
             exp = expected_literal(lit)
             if exp == 'not-a-literal':
                 continue
-            form = rng.below(3)
-            text = [b'a = ' + lit + b';', b'a=' + lit, b'a = [ ' + lit + b' ];'][form]
+            form = rng.below(4)
+            if form == 3:
+                # the literal REDEFINES a member that an earlier literal of another kind defined (overrides allowed):
+                # the setting takes type, format and value of the last literal
+                first = rng.choice([b'1', b'5000000000', b'2.5', b'0x10', b'0x10L', b'"s"', b'true', b'-7L', b'1e300'])
+                text = b'a = ' + first + b';\nb = 0;\na = ' + lit + b';'
+                impl.do('set_option 128 1')
+            else:
+                text = [b'a = ' + lit + b';', b'a=' + lit, b'a = [ ' + lit + b' ];'][form]
             out = impl.do('read_string ' + hexs(text))
             impl.do('err')
             impl.do('dump')
             expect[len(impl.ops) - 3] = (exp, lit, form)
+            if form == 3:
+                impl.do('set_option 128 0')
             k = 'c08:%s' % ('reject' if exp is None else 'type%d' % exp[0])
             stats[k] = stats.get(k, 0) + 1
     return fn
@@ -152,6 +161,8 @@ def oracle_c08(expect):
                 if got != '1':
                     return i, 'literal %r (exact value representable) was rejected: %s' % (lit, outs[i + 1])
                 want = '(-,%d,%d,%s,' % exp if form == 2 else '(61,%d,%d,%s,' % exp
+                if form == 3 and outs[i + 2].count('(61,') != 1:
+                    return i + 2, 'literal %r redefining a member: the member exists %d times: %s' % (lit, outs[i + 2].count('(61,'), outs[i + 2][outs[i + 2].find('root='):][:200])
                 if want not in outs[i + 2]:
                     return i + 2, 'literal %r stored as %s, its exact value is %s' % (lit, outs[i + 2][outs[i + 2].find('root='):][:160], want)
         return None
